@@ -102,6 +102,74 @@ func c10HasErrorResult(fn *ast.FuncDecl) bool {
 	return false
 }
 
+// c10SyncShape inspects a tan save function: the bool result of db.write must be
+// received in a variable of its own (not in accumulate) and there must be an
+// `if <that variable> { ... }` whose body, when accumulate != "", assigns
+// `accumulate = true`, or, when call != "", calls <x>.<call>(...).
+func c10SyncShape(fn *ast.FuncDecl, accumulate string, call string) bool {
+	flag := ""
+	direct := false
+	ast.Inspect(fn.Body, func(n ast.Node) bool {
+		as, ok := n.(*ast.AssignStmt)
+		if !ok || len(as.Rhs) != 1 || len(as.Lhs) < 1 {
+			return true
+		}
+		c, ok := as.Rhs[0].(*ast.CallExpr)
+		if !ok {
+			return true
+		}
+		sel, ok := c.Fun.(*ast.SelectorExpr)
+		if !ok || sel.Sel.Name != "write" {
+			return true
+		}
+		if id, ok := as.Lhs[0].(*ast.Ident); ok {
+			if accumulate != "" && id.Name == accumulate {
+				direct = true
+			}
+			flag = id.Name
+		}
+		return true
+	})
+	if flag == "" {
+		panic(fn.Name.Name + ": no `x, err := db.write(...)`")
+	}
+	if direct {
+		return false
+	}
+	found := false
+	ast.Inspect(fn.Body, func(n ast.Node) bool {
+		is, ok := n.(*ast.IfStmt)
+		if !ok {
+			return true
+		}
+		id, ok := is.Cond.(*ast.Ident)
+		if !ok || id.Name != flag {
+			return true
+		}
+		ast.Inspect(is.Body, func(m ast.Node) bool {
+			if accumulate != "" {
+				if as, ok := m.(*ast.AssignStmt); ok && len(as.Lhs) == 1 && len(as.Rhs) == 1 {
+					l, ok1 := as.Lhs[0].(*ast.Ident)
+					r, ok2 := as.Rhs[0].(*ast.Ident)
+					if ok1 && ok2 && l.Name == accumulate && r.Name == "true" {
+						found = true
+					}
+				}
+			}
+			if call != "" {
+				if c, ok := m.(*ast.CallExpr); ok {
+					if s, ok := c.Fun.(*ast.SelectorExpr); ok && s.Sel.Name == call {
+						found = true
+					}
+				}
+			}
+			return true
+		})
+		return true
+	})
+	return found
+}
+
 func init() {
 	ld := func() *Pkg { return loadPkg("internal/logdb") }
 	bfact := func(name string, f func() bool) Fact {
@@ -215,6 +283,24 @@ func init() {
 				panic("openPebbleDB: WriteOptions literal not found")
 			}
 			return res
+		}),
+		// tan: which updates of one SaveRaftState call make the log file fsynced.
+		// multiplexed mode: the flag returned by db.write is OR-ed into syncLog (one
+		// fsync at the end if ANY update needs it); regular mode: every update that
+		// needs it is fsynced
+		bfact("c10_tanmux_batch_sync_accumulates", func() bool {
+			return c10SyncShape(loadPkg("internal/tan").Func("LogDB", "concurrentSaveState"), "syncLog", "")
+		}),
+		bfact("c10_tan_seq_sync_each_update", func() bool {
+			return c10SyncShape(loadPkg("internal/tan").Func("LogDB", "sequentialSaveState"), "", "sync")
+		}),
+		// tan: an error of the log rollover (makeRoomForWrite) fails the write
+		bfact("c10_tan_rollover_error_propagates", func() bool {
+			found, ok := c10IfErrReturns(loadPkg("internal/tan").Func("db", "doWriteLocked"), "makeRoomForWrite")
+			if !found {
+				panic("doWriteLocked: no `if err := d.makeRoomForWrite()`")
+			}
+			return ok
 		}),
 		// tan record format
 		NFact("c10_tan_block_size", func() *big.Int { return loadPkg("internal/tan").Const("blockSize") }),
